@@ -25,6 +25,7 @@ type Case struct {
 	Procs   []int          `json:"procs_list,omitempty"`
 	Extra   map[string]any `json:"extra,omitempty"`
 	Finding string         `json:"finding,omitempty"` // set on committed witnesses
+	Race    bool           `json:"race,omitempty"`    // witness must be replayed with the race-detector build
 }
 
 // Hash identifies a case by content (not by seed/index).
